@@ -117,11 +117,11 @@ class Gen:
 
 
 def gen_random(rng, size, layout, nops, safe):
-    """structured-valid walk. safe: allocation sizes n with Size >= 2n-1 (the empty ring never refuses,
+    """structured-valid walk. safe: allocation sizes n with Size >= 2n (the empty ring never refuses,
     so the known finding cannot end the monitor's judgement early)"""
     g = Gen(rng, size, layout)
     o = g.o
-    cap = (size + 1) // 2 if safe else size
+    cap = size // 2 if safe else size
     cap = max(cap, 3 + o)
     client = rng.random() < 0.4          # like ll_data_pdu_buffer: always allocate the maximum size
     M = rng.randint(3 + o, min(cap, 258 if size > 258 else cap))
@@ -361,7 +361,7 @@ class C18(Standard):
 
 META = dict(
     text="C18 PDU ring buffers keep PDUs intact and in FIFO order",
-    level_note="unbounded Coq proof (representation invariant + refinement to a FIFO) for every Size >= 2, every layout overhead and every operation sequence inside the documented preconditions; completeness of alloc_front on an EMPTY ring is refuted (known finding) and proved under Size >= 2n-1",
+    level_note="unbounded Coq proof (representation invariant + refinement to a FIFO) for every Size >= 2, every layout overhead and every operation sequence inside the documented preconditions; completeness of alloc_front on an EMPTY ring is refuted (known finding) and proved under Size >= 2n",
     design_ref="DESIGN.md section 6 C18, appendix 12.1; docs/C18.md",
     technique="Coq model + machine-checked theorems; extracted-model / C++ implementation correspondence")
 
